@@ -145,9 +145,7 @@ func run(c *lib.Ctx) {
 			break
 		}
 	}
-	if !c.Quick() {
-		straceHistory(c)
-	}
+	straceHistory(c)
 	c.Count("restart_hook_hits", atomic.LoadInt64(&hookHits))
 	c.Floor("requests_overlapping_a_reload", 50)
 	c.Floor("windows_with_both_generations_seen", 1)
@@ -443,7 +441,7 @@ func straceHistory(c *lib.Ctx) {
 	dir := filepath.Join(c.Dir, "strace")
 	os.MkdirAll(dir, 0o755)
 	out := filepath.Join(dir, "strace.out")
-	cmdline := fmt.Sprintf("exec strace -f -e trace=bind -o %s %s sub C07 strace %s %d %d", out, lib.Self, dir, ports[0], ports[1])
+	cmdline := fmt.Sprintf("exec strace -f -yy -e trace=bind,fcntl -o %s %s sub C07 strace %s %d %d", out, lib.Self, dir, ports[0], ports[1])
 	res := runShell(cmdline, 5*time.Minute)
 	if res != nil {
 		c.Inconclusive("strace child: " + res.Error())
@@ -451,7 +449,24 @@ func straceHistory(c *lib.Ctx) {
 	}
 	b, _ := os.ReadFile(out)
 	binds := map[int]int{}
+	flips := 0
+	dups := 0
+	var flipLine string
 	for _, l := range strings.Split(string(b), "\n") {
+		// hand-over hygiene: the listening socket's file status flags are shared
+		// by every duplicate; clearing O_NONBLOCK on any of them puts the
+		// listener that is still accepting into blocking mode
+		for _, p := range ports {
+			if strings.Contains(l, fmt.Sprintf(":%d]>", p)) && strings.Contains(l, "fcntl(") {
+				if strings.Contains(l, "F_DUPFD_CLOEXEC") {
+					dups++
+				}
+				if strings.Contains(l, "F_SETFL") && !strings.Contains(l, "O_NONBLOCK") {
+					flips++
+					flipLine = l
+				}
+			}
+		}
 		if !strings.Contains(l, "bind(") || !strings.Contains(l, "= 0") {
 			continue
 		}
@@ -463,6 +478,14 @@ func straceHistory(c *lib.Ctx) {
 	}
 	c.Eval(1)
 	c.Count("strace_histories", 1)
+	c.Count("strace_listener_dups_seen", int64(dups))
+	c.Nontrivial("strace-history")
+	if flips > 0 {
+		c.Violation("C07/listener-switched-to-blocking-mode-during-handover", fmt.Sprintf("%d fcntl(F_SETFL) calls cleared O_NONBLOCK on a listening socket that the old instance was still accepting on (an Accept entering the kernel in that moment blocks for good and closing the old listener hangs the reload); e.g. %s", flips, flipLine), string(b))
+	}
+	if dups == 0 {
+		c.Inconclusive("strace saw no duplication of a listening socket; hand-over not observed")
+	}
 	for _, p := range ports {
 		c.Count("strace_binds_seen", int64(binds[p]))
 		if binds[p] != 1 {
